@@ -264,6 +264,15 @@ MsgAttrs1 ==
                    methods |-> << Sh(NameInstantiate, "instantiate", "ok"), Sh(<<"a","_","b">>, "exec", "ok"),
                                   Sh(<<"x","_","y">>, "query", "ok"), Sh(<<"z","_","1">>, "sudo", "ok") >>] >>]
 
+(* the declarations on the contract not grouped by kind: an override and other attributes written between the two interface      *)
+(* declarations (C14: the order of interface and override declarations does not matter); the twin groups them and lists the        *)
+(* interfaces in the opposite order                                                                                                *)
+Spread1 ==
+    [id |-> "IN1", family |-> "spread", overrides |-> {"sudo"},
+     parts |-> << [id |-> "i1", methods |-> << Sh(NameFoo, "exec", "ok"), Sh(NameBar, "query", "ok") >>],
+                  [id |-> "i2", methods |-> << Sh(<<"x">>, "exec", "err"), Sh(<<"y">>, "query", "ok"), Sh(<<"z">>, "sudo", "ok") >>],
+                  [id |-> "own", methods |-> << Sh(NameInstantiate, "instantiate", "ok"), Sh(<<"a">>, "exec", "ok"), Sh(<<"b">>, "query", "ok") >>] >>]
+
 (* programs that override entry points (C06, C04): one handler of every kind, some kinds served by the user's own functions *)
 OvProg(id, ov) ==
     [id |-> id, family |-> "override", overrides |-> ov,
@@ -314,12 +323,12 @@ RawSeq ==      \* all programs of this instance, as a sequence
        [gi \in 1..Len(Groups) |-> CorpusProg(gi)]
     \o [i \in 1..Len(SmallFs) |-> SmallProgOf(SmallFs[i], "m" \o ToString(i))]
     \o <<Shared1, Shared2, Shared3, Nested1, Unicode1, Empty1, CtxKinds1, Wide1, Defaults1, Keywords1, Generic1, Generic2, PermTwin(Shared1), PermTwin(CorpusProg(1)),
-      Alias1, Alias2(FALSE), Alias2(TRUE), MsgAttrs1>> \o OverrideProgs \o CollideProgs
+      Alias1, Alias2(FALSE), Alias2(TRUE), MsgAttrs1, Spread1, PermTwin(Spread1)>> \o OverrideProgs \o CollideProgs
 
 (* the table of elaborated programs: the static semantics applied once per program *)
 ElabSeq == TLCEval([i \in 1..Len(RawSeq) |-> Elab(RawSeq[i])])
 ProgTable == ElabSeq          \* program "ids" of the model are indices into this sequence
-CompiledIds == {i \in 1..Len(RawSeq) : RawSeq[i].family \in {"corpus", "shared", "perm", "override", "collide", "generic", "nested", "alias", "aliasshare"}}
+CompiledIds == {i \in 1..Len(RawSeq) : RawSeq[i].family \in {"corpus", "shared", "perm", "override", "collide", "generic", "nested", "alias", "aliasshare", "spread"}}
 
 (* ------------------------------------------------------------ documents *)
 (* long documents (a body of ~1.2 kB of four-byte characters after 0..3 one-byte characters: whatever byte offset a *)
